@@ -73,6 +73,8 @@ class Schema:
         toks = [str(len(self.desc["instances"]))]
         for i in self.desc["instances"]:
             toks += inst_toks(i)
+        # optional trailing section: TL name of every instance (JSON model: union variant names)
+        toks += ["N", str(len(self.desc["instances"]))] + [(i.get("tlname") or "-").replace(" ", "") or "-" for i in self.desc["instances"]]
         return "codec.desc %s %s %s" % (self.sid, "1" if self.sanity else "0", " ".join(toks))
 
     def top_items(self):
